@@ -54,7 +54,7 @@ func (c07) Cases(tier string) int {
 	if tier == "thorough" {
 		return 80000
 	}
-	return 2000
+	return 10000
 }
 func (c07) RaceCases(tier string) int {
 	if tier == "thorough" {
@@ -66,7 +66,7 @@ func (c07) Floor(tier string) int {
 	if tier == "thorough" {
 		return 20000
 	}
-	return 500
+	return 2500
 }
 
 // c07Target is one element of T.
